@@ -142,6 +142,62 @@ def numeric_oracle(ctx, r, case, tag):
         ctx.violation("c09-nonpositive", "a gap cell has non-positive area or wetted perimeter", case=case)
 
 
+def core_signature(r):
+    c = r.core
+    return dict(n_sc=int(c.n_sc), asm_sc_adj=np.asarray(c._asm_sc_adj).tolist(), sc_adj=np.asarray(c._sc_adj).tolist(),
+                asm_adj=np.asarray(c.asm_adj).tolist(), area=float(c.gap_params['total area']),
+                wp=np.round(np.asarray(c.gap_params['asm wp'], dtype=float), 12).tolist())
+
+
+def history_oracle(ctx, rng):
+    """every arrangement - also one built after other cores have been built and looked at in the same process: a core is built,
+    its read-only views are used (assembly coordinates as the core-map plot asks for them, gap averages, adjacent gap temperatures),
+    then the same case is built again; the second core must have the tables of the first and pass the numeric clauses"""
+    import shutil
+    pos7 = gi.core_positions(2)
+    pos19 = gi.core_positions(3)
+    picks = [pos7, pos7[:2], [pos7[0], pos7[2], pos7[3]], [p for p in pos19 if rng.random() < 0.7] or pos19[:3]]
+    for k, positions in enumerate(picks):
+        case = layout_case(random.Random(9100 + k), positions)
+        d = str(ctx.work / ("hist%d" % k))
+        try:
+            inp, r1 = gi.build_reactor(case, d)
+        except SystemExit:
+            continue
+        except Exception as ex:
+            ctx.violation("c09-build:%s" % type(ex).__name__, "Core.load fails for layout %s (built after other cores in the same "
+                          "process): %r" % (positions, ex), case=case, positions=positions)
+            continue
+        sig1 = core_signature(r1)
+        try:
+            r1.core.map_assembly_xy()
+            r1.core.avg_coolant_gap_temp
+            for a in range(len(r1.assemblies)):
+                r1.core.adjacent_coolant_gap_temp(a)
+        except Exception as ex:
+            ctx.count("history_view_raised:" + type(ex).__name__)
+        try:
+            inp2, r2 = gi.build_reactor(case, d)
+            sig2 = core_signature(r2)
+        except SystemExit:
+            sig2 = None
+        except Exception as ex:
+            ctx.violation("c09-history-build:%s" % type(ex).__name__, "layout %s: building the same core a second time in one process, after "
+                          "the first core's assembly coordinates were asked for (Core.map_assembly_xy), fails: %r" % (positions, ex),
+                          case=case, positions=positions, sequence=["build", "core.map_assembly_xy()", "build"])
+            continue
+        ctx.count("history_pairs")
+        if sig2 != sig1:
+            diff = [k_ for k_ in sig1 if sig2 is None or sig1[k_] != sig2[k_]]
+            ctx.violation("c09-history", "layout %s: the same core built a second time in one process, after the first core's assembly "
+                          "coordinates were asked for (Core.map_assembly_xy), has other gap tables (%s differ; %d gap cells, then %s)"
+                          % (positions, ", ".join(diff), sig1['n_sc'], sig2 and sig2['n_sc']), case=case, positions=positions,
+                          sequence=["build", "core.map_assembly_xy()", "build"])
+        elif sig2 is not None:
+            numeric_oracle(ctx, r2, case, positions)
+        shutil.rmtree(d, ignore_errors=True)
+
+
 def run(ctx):
     rng = random.Random(9000 + ctx.seed)
     ctx.rule = ("exhaustive: all 127 non-empty subsets of the 7-position core (one random assignment of 1-3 assembly types each; "
@@ -218,6 +274,7 @@ def run(ctx):
                                 n_gap_cells=int(r.core.n_sc)))
             import shutil
             shutil.rmtree(d, ignore_errors=True)
+    history_oracle(ctx, rng)
     for k in range(NCHUNK):
         body = header + ["namespace Dassh.Gen.C09_%d" % k, "open Dassh.Table", ""] + chunks[k]
         body.append("def certs : List Bool := [%s]\n" % ", ".join("cert_%s" % n for n in chunk_names[k]))
